@@ -147,43 +147,245 @@ theorem deleted_stays_deleted (c : Cat) (id : Nat) (ch : Change) (h : find c id 
 
 /-! ## snapshots -/
 
-theorem restore_append_fresh (acc snap : List Dataset)
-    (hd : ∀ d ∈ snap, d.id ∉ acc.map (·.id)) (hn : (snap.map (·.id)).Nodup) :
-    restore acc snap = acc ++ snap := by
-  induction snap generalizing acc with
-  | nil => simp [restore]
-  | cons d t ih =>
-    have hnone : find acc d.id = none := (find_none_iff acc d.id).mpr (hd d List.mem_cons_self)
-    rw [List.map_cons, List.nodup_cons] at hn
-    show restore (match find acc d.id with | some _ => acc | none => acc ++ [d]) t = _
-    rw [hnone]
-    simp only
-    rw [ih (acc ++ [d]) ?_ hn.2]
-    · simp
-    · intro e he
-      simp only [List.map_append, List.map_cons, List.map_nil, List.mem_append, List.mem_cons, List.not_mem_nil, or_false]
-      rintro (hm | heq)
-      · exact hd e (List.mem_cons_of_mem _ he) hm
-      · exact hn.1 (heq ▸ List.mem_map.mpr ⟨e, he, rfl⟩)
+/-- a dataset that is already present and has the shape of the snapshot's dataset (same creation
+entry) becomes exactly the snapshot's dataset -/
+theorem reconcile_eq (d s : Dataset) (hid : d.id = s.id) (hdim : d.dim = s.dim) (hsp : d.space = s.space)
+    (hr : d.repl = s.repl) (hp : d.parts.map (·.id) = s.parts.map (·.id))
+    (hn : (s.parts.map (·.id)).Nodup) : reconcile d s = s := by
+  have hparts : (d.parts.map fun p => match s.parts.find? (·.id == p.id) with
+      | some q => ({ p with nodes := q.nodes } : Part)
+      | none => p) = s.parts := by
+    generalize d.parts = dp at hp
+    generalize hsp' : s.parts = sp at hp hn
+    -- the lookup goes into the *whole* list `sp`; walk along a suffix of it
+    suffices ∀ (pre suf : List Part) (dsuf : List Part), sp = pre ++ suf → dsuf.map (·.id) = suf.map (·.id) →
+        (dsuf.map fun p => match sp.find? (·.id == p.id) with
+          | some q => ({ p with nodes := q.nodes } : Part)
+          | none => p) = suf from this [] sp dp rfl hp
+    intro pre suf
+    induction suf generalizing pre with
+    | nil =>
+      intro dsuf _ hm
+      cases dsuf with
+      | nil => rfl
+      | cons _ _ => simp at hm
+    | cons q rest ih =>
+      intro dsuf hsplit hm
+      cases dsuf with
+      | nil => simp at hm
+      | cons p drest =>
+        simp only [List.map_cons, List.cons.injEq] at hm
+        obtain ⟨hpq, hrest⟩ := hm
+        have hfind : sp.find? (·.id == p.id) = some q := by
+          rw [hsplit, List.find?_append]
+          have hnone : pre.find? (·.id == p.id) = none := by
+            apply List.find?_eq_none.mpr
+            intro x hx hxe
+            have hxe' : x.id = q.id := by rw [← hpq]; simpa using hxe
+            rw [hsplit, List.map_append, List.nodup_append] at hn
+            exact hn.2.2 x.id (List.mem_map.mpr ⟨x, hx, rfl⟩) q.id (by simp) hxe'
+          rw [hnone]
+          simp [hpq]
+        simp only [List.map_cons, hfind]
+        congr 1
+        · cases p; cases q; simp_all
+        · exact ih (pre ++ [q]) drest (by rw [hsplit]; simp) hrest
+  cases d; cases s
+  simp only [reconcile] at *
+  simp_all
+  exact hparts
+
+/-- what makes a present dataset and the snapshot's dataset "the same dataset": created by the same
+entry (dataset ids are fresh random uuids: an id is created once) -/
+def SameShape (d s : Dataset) : Prop :=
+  d.dim = s.dim ∧ d.space = s.space ∧ d.repl = s.repl ∧ d.parts.map (·.id) = s.parts.map (·.id)
+
+/-- **Installing a catalogue snapshot gives exactly the snapshotted catalogue, whatever the member
+held before** (D17 repaired): datasets deleted meanwhile disappear, replica lists that changed
+are updated, new datasets appear. -/
+theorem restore_is_the_snapshot (c : Cat) (snap : List Dataset)
+    (hshape : ∀ s ∈ snap, ∀ d, find c s.id = some d → SameShape d s)
+    (hparts : ∀ s ∈ snap, (s.parts.map (·.id)).Nodup) : restore c snap = snap := by
+  unfold restore
+  conv => rhs; rw [← List.map_id snap]
+  apply List.map_congr_left
+  intro s hs
+  cases hf : find c s.id with
+  | none => rfl
+  | some d =>
+    simp only [id]
+    have hid : d.id = s.id := by
+      have := List.find?_some hf
+      simpa using this
+    obtain ⟨h1, h2, h3, h4⟩ := hshape s hs d hf
+    exact reconcile_eq d s hid h1 h2 h3 h4 (hparts s hs)
+
+/-! ### the hypothesis of `restore_is_the_snapshot` holds between any two points of one log
+
+Dataset and partition ids are fresh random uuids: the log creates an id at most once, and the
+partitions of one creation have distinct ids (`FreshIds`). Then a dataset that a lagging member
+holds and the dataset of the same id in the leader's snapshot stem from the same creation entry
+and differ in replica lists only. -/
+
+theorem SameShape.refl (d : Dataset) : SameShape d d := ⟨rfl, rfl, rfl, rfl⟩
+theorem SameShape.symm {d s : Dataset} (h : SameShape d s) : SameShape s d :=
+  ⟨h.1.symm, h.2.1.symm, h.2.2.1.symm, h.2.2.2.symm⟩
+theorem SameShape.trans {a b c : Dataset} (h1 : SameShape a b) (h2 : SameShape b c) : SameShape a c :=
+  ⟨h1.1.trans h2.1, h1.2.1.trans h2.2.1, h1.2.2.1.trans h2.2.2.1, h1.2.2.2.trans h2.2.2.2⟩
+
+/-- the creation entries of a log -/
+def creates : List Change → List Dataset
+  | [] => []
+  | .create e :: rest => e :: creates rest
+  | _ :: rest => creates rest
+
+theorem creates_append (a b : List Change) : creates (a ++ b) = creates a ++ creates b := by
+  induction a with
+  | nil => rfl
+  | cons ch rest ih => cases ch <;> simp [creates, ih]
+
+/-- `d` stems from one of the creation entries `srcs` -/
+def Src (srcs : List Dataset) (d : Dataset) : Prop := ∃ e ∈ srcs, e.id = d.id ∧ SameShape d e
+
+theorem Src.mono {srcs more : List Dataset} {d : Dataset} (h : Src srcs d) : Src (srcs ++ more) d := by
+  obtain ⟨e, he, h1, h2⟩ := h
+  exact ⟨e, List.mem_append_left _ he, h1, h2⟩
+
+theorem updPart_shape (f : Part → Part) (hf : ∀ p, (f p).id = p.id) (pid : Nat) (d : Dataset) :
+    (updPart f pid d).id = d.id ∧ SameShape (updPart f pid d) d := by
+  refine ⟨rfl, rfl, rfl, rfl, ?_⟩
+  simp only [updPart, List.map_map]
+  apply List.map_congr_left
+  intro p _
+  simp only [Function.comp]
+  split
+  · exact hf p
+  · rfl
+
+theorem src_updDataset (srcs : List Dataset) (c : Cat) (ds : Nat) (g : Dataset → Dataset)
+    (hg : ∀ d, (g d).id = d.id ∧ SameShape (g d) d) (h : ∀ d ∈ c, Src srcs d) :
+    ∀ d ∈ updDataset c ds g, Src srcs d := by
+  intro d hd
+  obtain ⟨x, hx, rfl⟩ := List.mem_map.mp hd
+  obtain ⟨e, he, h1, h2⟩ := h x hx
+  split
+  · exact ⟨e, he, h1.trans (hg x).1.symm, (hg x).2.trans h2⟩
+  · exact ⟨e, he, h1, h2⟩
+
+theorem src_process (srcs : List Dataset) (c : Cat) (ch : Change) (h : ∀ d ∈ c, Src srcs d) :
+    ∀ d ∈ (process c ch).1, Src (srcs ++ creates [ch]) d := by
+  cases ch with
+  | create e =>
+    cases hf : find c e.id with
+    | some x => rw [process_create_some c e x hf]; intro d hd; exact (h d hd).mono
+    | none =>
+      rw [process_create_none c e hf]
+      intro d hd
+      rcases List.mem_append.mp hd with hd | hd
+      · exact (h d hd).mono
+      · have : d = e := by simpa using hd
+        subst this
+        exact ⟨d, by simp [creates], rfl, SameShape.refl d⟩
+  | delete i =>
+    cases hf : find c i with
+    | none => rw [process_delete_none c i hf]; intro d hd; exact (h d hd).mono
+    | some x =>
+      rw [process_delete_some c i x hf]
+      intro d hd
+      exact (h d (List.mem_filter.mp hd).1).mono
+  | addNode ds part node =>
+    intro d hd
+    simp only [process] at hd
+    split at hd
+    · exact (h d hd).mono
+    · split at hd
+      · exact (src_updDataset srcs c ds (updPart (fun p => { p with nodes := p.nodes ++ [node] }) part)
+          (fun x => updPart_shape (fun p => { p with nodes := p.nodes ++ [node] }) (fun _ => rfl) part x) h d hd).mono
+      · exact (h d hd).mono
+  | removeNode ds part node =>
+    intro d hd
+    simp only [process] at hd
+    split at hd
+    · exact (h d hd).mono
+    · split at hd
+      · exact (src_updDataset srcs c ds (updPart (fun p => { p with nodes := p.nodes.filter (· != node) }) part)
+          (fun x => updPart_shape (fun p => { p with nodes := p.nodes.filter (· != node) }) (fun _ => rfl) part x) h d hd).mono
+      · exact (h d hd).mono
+
+theorem src_run (srcs : List Dataset) (c : Cat) (log : List Change) (h : ∀ d ∈ c, Src srcs d) :
+    ∀ d ∈ run c log, Src (srcs ++ creates log) d := by
+  induction log generalizing c srcs with
+  | nil => intro d hd; exact (h d hd).mono
+  | cons ch rest ih =>
+    intro d hd
+    have := ih (srcs ++ creates [ch]) (process c ch).1 (src_process srcs c ch h) d hd
+    have hc : creates (ch :: rest) = creates [ch] ++ creates rest := creates_append [ch] rest
+    rw [hc, ← List.append_assoc]
+    exact this
+
+/-- ids are created once, and the partitions of one creation are distinct -/
+structure FreshIds (log : List Change) : Prop where
+  once : ∀ e ∈ creates log, ∀ e' ∈ creates log, e.id = e'.id → e = e'
+  parts : ∀ e ∈ creates log, (e.parts.map (·.id)).Nodup
+
+/-- **C14 (a lagging member is caught up by the leader's snapshot).** Whatever prefix of the
+catalogue log a member has applied, installing the snapshot of the catalogue after the whole log
+leaves it with exactly that catalogue — for every log whose ids are fresh. -/
+theorem lagging_member_gets_the_leaders_catalogue (pre suf : List Change) (hf : FreshIds (pre ++ suf)) :
+    restore (run [] pre) (snapshot (run [] (pre ++ suf))) = run [] (pre ++ suf) := by
+  apply restore_is_the_snapshot
+  · intro s hs d hd
+    have hdm : d ∈ run [] pre := List.mem_of_find?_eq_some hd
+    have hdid : d.id = s.id := by simpa using List.find?_some hd
+    obtain ⟨e, he, he1, he2⟩ := src_run [] [] pre (by simp) d hdm
+    obtain ⟨e', he', he1', he2'⟩ := src_run [] [] (pre ++ suf) (by simp) s hs
+    simp only [List.nil_append] at he he'
+    have hemem : e ∈ creates (pre ++ suf) := by rw [creates_append]; exact List.mem_append_left _ he
+    have : e = e' := hf.once e hemem e' he' (by rw [he1, he1', hdid])
+    subst this
+    exact he2.trans he2'.symm
+  · intro s hs
+    obtain ⟨e', he', _, he2'⟩ := src_run [] [] (pre ++ suf) (by simp) s hs
+    simp only [List.nil_append] at he'
+    rw [he2'.2.2.2]
+    exact hf.parts e' he'
+
+/-- non-vacuity: the history of `lagging_member_catches_up` has fresh ids -/
+example : FreshIds [.create ⟨1, 2, 0, 1, [⟨10, [1]⟩]⟩, .create ⟨3, 4, 1, 2, [⟨30, [1, 2]⟩, ⟨31, [2, 3]⟩]⟩,
+    .delete 1, .create ⟨2, 2, 0, 1, [⟨20, [1]⟩]⟩, .removeNode 3 30 1, .addNode 3 31 1] :=
+  ⟨by decide, by decide⟩
 
 /-- **Snapshot restore on a fresh node = the snapshotted catalogue** (restart from a compacted log) -/
-theorem snapshot_restore_fresh (c : Cat) (h : Wf c) : restore [] (snapshot c) = c := by
-  have := restore_append_fresh [] c (by simp) h
-  simpa [snapshot] using this
+theorem snapshot_restore_fresh (c : Cat) (_h : Wf c) : restore [] (snapshot c) = c := by
+  unfold restore snapshot
+  conv => rhs; rw [← List.map_id c]
+  apply List.map_congr_left
+  intro s _
+  simp [find]
 
 /-- **Snapshot + suffix = full replay, at every cut, on a restarting node** -/
 theorem snapshot_cut_fresh (pre suf : List Change) :
     run (restore [] (snapshot (run [] pre))) suf = run [] (pre ++ suf) := by
   rw [snapshot_restore_fresh _ (wf_run [] pre (by simp [Wf])), run_append]
 
-/-- **Restoring onto a non-empty catalogue is wrong** (D17, known finding): a lagging member that
-still lists a dataset which the snapshot no longer contains keeps it; and a replica list that
-changed is not updated. -/
-theorem snapshot_restore_stale_counterexample :
+/-- **a lagging member**: it still lists dataset 1 (deleted meanwhile) and an old replica list of
+dataset 3; after installing the leader's snapshot it lists exactly what the leader lists -/
+theorem lagging_member_catches_up :
+    let stale : Cat := [⟨1, 2, 0, 1, [⟨10, [1]⟩]⟩, ⟨3, 4, 1, 2, [⟨30, [1, 2]⟩, ⟨31, [2, 3]⟩]⟩]
+    let leader : Cat := run stale [.delete 1, .create ⟨2, 2, 0, 1, [⟨20, [1]⟩]⟩, .removeNode 3 30 1, .addNode 3 31 1]
+    restore stale (snapshot leader) = leader := by
+  decide
+
+/-- before the repair `processSnapshot` only added: the deleted dataset stayed listed -/
+theorem add_only_restore_kept_stale_datasets :
     let stale : Cat := [⟨1, 2, 0, 1, [⟨10, [1]⟩]⟩]
     let leader : Cat := run stale [.delete 1, .create ⟨2, 2, 0, 1, [⟨20, [1]⟩]⟩]
-    restore stale (snapshot leader) ≠ leader ∧ (restore stale (snapshot leader)).length = 2 := by
+    restoreAddOnly stale (snapshot leader) ≠ leader ∧ (restoreAddOnly stale (snapshot leader)).length = 2 := by
   decide
+
+/-- the repair is in the code on this run (regenerated): `processSnapshot` drops what the snapshot
+does not list and sets the replica lists of what it does -/
+theorem snapshot_replaces_in_code : Generated.catalogueSnapshotReplaces = true := by decide
 
 /-! ## regenerated facts -/
 
